@@ -98,9 +98,12 @@ func preBlock(fw *formatWriter, source []byte, cursor *commonmark.Cursor) (child
 		}
 		return "", true
 	case commonmark.ListKind:
-		if fw.hasWritten && curr.IsTightList() {
-			// Individual list items won't contain a blank line,
-			// so add them beforehand.
+		if fw.hasWritten {
+			// Separate the list from what precedes it:
+			// the first item of a list is not preceded by a blank line of its own,
+			// and without one an ordered list that does not start at 1
+			// would become part of a preceding paragraph
+			// and any list part of a preceding HTML block.
 			fw.s("\n")
 		}
 		return "", true
